@@ -40,7 +40,7 @@ JOB_TIMEOUT = {"quick": 600, "thorough": 3000}
 
 RSUB_KEY = "rsub-int-minus-expr-swapped"
 NSHARDS = {"quick": 32, "thorough": 64}
-CASES = {"quick": {"expr": 120, "map": 30}, "thorough": {"expr": 2000, "map": 400}}
+CASES = {"quick": {"expr": 120, "map": 30}, "thorough": {"expr": 1500, "map": 300}}
 
 
 class HarnessBug(Exception):
